@@ -24,7 +24,7 @@ func sampleTableScope(f *ssa.Function) bool {
 
 // C09 — sample-table queries agree with the table semantics (coherence clause only).
 func checkC09(c *Ctx, r *Report) {
-	r.Explanation = "Structural clauses: (L-DIVMUL) no integer quotient is multiplied afterwards in package mp4 (time conversions divide last), except to round down to a multiple of the divisor; (E9) every function in every package that changes the length-defining member of a sample table " +
+	r.Explanation = "(L-BITOVERLAP) the accessor methods of a packed integer type (SdtpEntry: is_leading, depends_on, is_depended_on, has_redundancy) read pairwise disjoint bits of the entry; Structural clauses: (G7-IDX) where a query rejects an index parameter against the length of a table and then reads element index+c, the rejection admits every element (stco/co64 GetOffset, stsd GetSampleDescription); (L-DIVMUL) no integer quotient is multiplied afterwards in package mp4 (time conversions divide last), except to round down to a multiple of the divisor; (E9) every function in every package that changes the length-defining member of a sample table " +
 		"(stsc Entries, stts counts/deltas, ctts EndSampleNr/SampleOffset, stsz SampleSize, …) also updates the cached / parallel members (a stale cache makes every binary-search query wrong); " +
 		"(W-NARROW) in the sample-table query and crop code no product of two non-constant 32-bit values is computed in 32 bits and only then widened to 64 bits (times and offsets wrap). " +
 		"(DEP) GetContainingChunks looks the stsc entry up per chunk (loop-variant index), the stss box decides sync status whenever present (also when empty); (O-INDEP) first-chunk and last-chunk clipping in GetRangesForSampleInterval are independent; (G3) a result slice made for an interval is indexed below the length it was made with, for every interval the entry tests allow (linear comparison of the largest index and the length). The index arithmetic of the queries themselves (binary searches, run-length walks, interval-to-chunk mapping) is NOT decided."
@@ -32,6 +32,14 @@ func checkC09(c *Ctx, r *Report) {
 		r.Undecided("L-DIVMUL", "scope", "", fmt.Sprintf("only %d products of an integer quotient found in package mp4", n))
 	}
 	requireFixture(r, "L-DIVMUL", "ticksWrong", func(fc *Ctx, s *Report) { ruleDivBeforeMul(fc, s, nil) })
+	if n := ruleOneBasedIndexGuard(c, r, func(f *ssa.Function) bool { return strings.HasPrefix(SSAFuncName(f), "mp4.") }); n < 3 {
+		r.Undecided("G7-IDX", "scope", "", fmt.Sprintf("only %d rejecting index guards found (StcoBox.GetOffset, Co64Box.GetOffset expected)", n))
+	}
+	requireFixture(r, "G7-IDX", "getOffsetWrong", func(fc *Ctx, s *Report) { ruleOneBasedIndexGuard(fc, s, nil) })
+	if n := ruleBitfieldAccessors(c, r, func(f *ssa.Function) bool { return strings.HasPrefix(SSAFuncName(f), "mp4.") }); n < 1 {
+		r.Undecided("L-BITOVERLAP", "scope", "", "no packed integer type with three or more accessors found (SdtpEntry expected)")
+	}
+	requireFixture(r, "L-BITOVERLAP", "packedEntry", func(fc *Ctx, s *Report) { ruleBitfieldAccessors(fc, s, nil) })
 	ruleCoherence(c, r, map[string]bool{"StscBox": true, "SttsBox": true, "CttsBox": true, "StszBox": true})
 	ruleNarrowMul(c, r, "W-NARROW", sampleTableScope)
 	r.RuleCounts["W-NARROW"] += 0
@@ -55,7 +63,7 @@ func checkC09(c *Ctx, r *Report) {
 
 // C10 — cropping yields a prefix of every track (narrow clauses).
 func checkC10(c *Ctx, r *Report) {
-	r.Explanation = "Narrow clauses: (T-CASES) the crop switch handles every sample table box (stts, stss, ctts, stsc, stsz, sdtp, stco, co64); (E9) crop functions keep parallel/cached table members in step; (L-DIVMUL) no integer quotient is multiplied afterwards in the crop tool (duration and timescale conversions multiply first); (DEP) every chunk offset updateChunkOffsets writes depends on the first kept chunk's input offset (the quantity the kept bytes are laid out from); (L-LOCKSTEP) in mp4ff-crop the input chunk counter of a track (trakOut.nextInChunkNr) is never incremented on a path that does not append the chunk's output offset to trakOut.chunkOffsets (the pair is inferred from the block that steps both); " +
+	r.Explanation = "Narrow clauses: (T-CASES) the crop switch handles every sample table box (stts, stss, ctts, stsc, stsz, sdtp, stco, co64); (E9) crop functions keep parallel/cached table members in step; (O-EVERY) every iteration of the track loop of cropStblChildren walks the track's sample tables (a fully kept track still gets its re-packed chunk offsets); (L-DIVMUL) no integer quotient is multiplied afterwards in the crop tool (duration and timescale conversions multiply first); (DEP) every chunk offset updateChunkOffsets writes depends on the first kept chunk's input offset (the quantity the kept bytes are laid out from); (L-LOCKSTEP) in mp4ff-crop the input chunk counter of a track (trakOut.nextInChunkNr) is never incremented on a path that does not append the chunk's output offset to trakOut.chunkOffsets (the pair is inferred from the block that steps both); " +
 		"(W-NARROW) no 32-bit product widened after the multiplication in the time/offset computations used by the tool; (DEP) the written mdat size depends on the accumulated byte ranges and new chunk offsets depend on the new moov size. " +
 		"Does not decide that the cut point is right, sync-sample selection, or durations."
 	ruleCoherence(c, r, map[string]bool{"StscBox": true, "SttsBox": true, "CttsBox": true, "StszBox": true})
@@ -69,6 +77,7 @@ func checkC10(c *Ctx, r *Report) {
 	requireFixture(r, "L-DIVMUL", "ticksWrong", func(fc *Ctx, s *Report) { ruleDivBeforeMul(fc, s, nil) })
 	ruleCropCounts(c, r)
 	ruleCropOffsetShift(c, r)
+	ruleCropEveryTrack(c, r)
 	if n := ruleLockstep(c, r, map[string]bool{"trakOut": true}); n < 1 {
 		r.Undecided("L-LOCKSTEP", "scope", "", "the pair trakOut.nextInChunkNr ~ chunkOffsets (mp4ff-crop) was not inferred")
 	}
